@@ -100,18 +100,20 @@ Lemma is_space_bounded : forall c, (12288 < c)%Z -> is_space c = false.
 Proof.
   intros c H. unfold is_space.
   repeat match goal with
-  | |- context [(?a <=? ?b)%Z] => destruct (Z.leb_spec a b)
-  | |- context [(?a =? ?b)%Z] => destruct (Z.eqb_spec a b)
-  end; simpl; try reflexivity; lia.
+  | |- context [(c <=? ?b)%Z] => rewrite (proj2 (Z.leb_gt c b)) by lia
+  | |- context [(c =? ?b)%Z] => rewrite (proj2 (Z.eqb_neq c b)) by lia
+  end.
+  rewrite ?andb_false_r. reflexivity.
 Qed.
 
 Lemma is_space_negative : forall c, (c < 0)%Z -> is_space c = false.
 Proof.
   intros c H. unfold is_space.
   repeat match goal with
-  | |- context [(?a <=? ?b)%Z] => destruct (Z.leb_spec a b)
-  | |- context [(?a =? ?b)%Z] => destruct (Z.eqb_spec a b)
-  end; simpl; try reflexivity; lia.
+  | |- context [(?a <=? c)%Z] => rewrite (proj2 (Z.leb_gt a c)) by lia
+  | |- context [(c =? ?b)%Z] => rewrite (proj2 (Z.eqb_neq c b)) by lia
+  end.
+  reflexivity.
 Qed.
 
 Lemma blank_positions_from_spec : forall items k p,
